@@ -269,3 +269,157 @@ def trace_unit(run, cases, rng, per_case=12, tag="traces", scripts=True, bufsize
             pass
     run.unit(tag, executions=nexec, accepted=nacc, accepted_by_equality_with_validated_execution=nequal,
              validated_by_tlc=len(tovalidate), events=nev, scanners=len(live), rule_set_groups=len(groups))
+
+
+# ------------------------------------------------------------------ allocation ledger
+def validate_heap(run, heapfiles, tag):
+    """heapfiles: list of (case, path).  The ledger of every process must be a behaviour of FlexHeap."""
+    files = [(c, p) for c, p in heapfiles if os.path.exists(p) and os.path.getsize(p) > 0]
+    if not files:
+        return 0
+    nled = 0
+    def one(x):
+        c, p = x
+        n = sum(1 for _ in open(p))
+        r = tlc.run("Trace_Heap", env={"TRACE": p}, workers=1, timeout=300)
+        return c, p, n, r
+    with cf.ThreadPoolExecutor(max(1, NCPU // 2)) as ex:
+        res = list(ex.map(one, files))
+    for c, p, n, r in res:
+        run.cov["states"] += r.distinct; run.cov["transitions"] += r.generated
+        if r.rc == 0 and r.depth == n + 1:
+            nled += 1; continue
+        if r.error or r.timed_out:
+            run.error("Trace_Heap failed on %s: %s" % (p, (r.error or "timeout")[:600])); continue
+        lines = open(p).read().splitlines()
+        stuck = min(r.depth, len(lines))
+        run.violation("heap:rejected",
+                      "allocation ledger of %s (flex %s) is not a behaviour of FlexHeap: event #%d %s not explained (previous: %s)"
+                      % (c.src.get("name"), " ".join(scanner.flex_args(c.cfg)), stuck, lines[stuck - 1][:200], " ".join(lines[max(0, stuck - 4):stuck - 1])[:400]),
+                      dict(cfg=c.cfg, events=lines[max(0, stuck - 15):stuck]), [c.gen["l"], p])
+    run.unit(tag, ledgers=len(files), accepted=nled)
+    return nled
+
+
+def fault_unit(run, cases, rng, per_case=3, tag="faults", max_points=40):
+    """single-fault enumeration: for each scenario a clean run counts allocation requests A and read
+    attempts R; then one run per k <= A with the k-th request refused, and per read index an EINTR
+    (must be transparent) and an EIO (must be reported).  Scanner traces go to Trace_Scanner, ledgers
+    to Trace_Heap."""
+    wd = os.path.join(run.work, tag); os.makedirs(wd, exist_ok=True)
+    live = [c for c in cases if c.gen and c.status == "ok" and not c.dangerous]
+    if not live: return
+    casefile = os.path.join(wd, "cases.ndjson")
+    with open(casefile, "w") as f:
+        for c in live: f.write(json.dumps({"id": c.id, "src": c.src}) + "\n")
+    plans = []
+    for ci, c in enumerate(live):
+        c.alphabet = traces.alphabet_of(c.src); c._ci = ci
+        for k, inp in enumerate(cover_inputs(c, rng, per_case)):
+            nf = 2
+            bs = traces.BufScript(rng, c, nf)
+            pure = rng.random() < 0.4      # plain action scripts, one buffer: EINTR must be completely transparent
+            job = dict(input=inp + bytes(rng.choice(c.alphabet) for _ in range(6)), files=[bytes(rng.choice(c.alphabet) for _ in range(4))],
+                       sched=rng.choice([[1], [2], [3, 1]]), ops=traces.gen_script(rng, c) if pure else bs.action_script(rng.randint(2, 6)),
+                       outs=[] if pure else bs.outer_script(rng.randint(0, 3)),
+                       wraps=[("T", 1)] if pure else (bs.wrap_script(2) if c.cfg.get("userwrap") else []), pure=pure,
+                       bufsize=rng.choice([0, 2, 8]), initsc=0,
+                       reset=dict(traces.reset_fields(c, ci + 1), cid=c.id, pure=pure))
+            plans.append((c, job, os.path.join(wd, "clean-%s-%d.ndjson" % (c.id, k))))
+    with cf.ThreadPoolExecutor(NCPU) as ex:
+        list(ex.map(lambda x: traces.run_jobs(x[0], [x[1]], x[2]), plans))
+    work = []; expect = {}
+    npoints = 0
+    for c, job, tf in plans:
+        ev = [json.loads(l) for l in open(tf, errors="replace")] if os.path.exists(tf) else []
+        cnt = next((e for e in ev if e.get("e") == "Counts"), None)
+        if not cnt: continue
+        A, Rn = cnt["allocs"], cnt["reads"]
+        jobs = []
+        ks = list(range(1, A + 1)); rng.shuffle(ks)
+        for k in sorted(ks[:max_points]):
+            jobs.append(dict(job, failalloc=k, reset=dict(job["reset"], failalloc=k)))
+        if not c.cfg.get("userread", True):
+            js = list(range(1, Rn + 1)); rng.shuffle(js)
+            for j in sorted(js[:max_points // 2]):
+                jobs.append(dict(job, readfault="%d:4" % j, reset=dict(job["reset"], eintr=j)))
+                jobs.append(dict(job, readfault="%d:5" % j, reset=dict(job["reset"], eio=j)))
+        tfk = tf.replace("clean-", "fault-")
+        work.append((c, jobs, tfk, traces.projection(open(tf, errors="replace").readlines())))
+        npoints += len(jobs)
+    with cf.ThreadPoolExecutor(NCPU) as ex:
+        list(ex.map(lambda x: traces.run_jobs(x[0], x[1], x[2]), work))
+    # scanner traces: clean + faulted, all validated by TLC
+    tov = []
+    for c, job, tf in plans:
+        tov += [(c, e) for e in traces.split_executions(tf)]
+    neintr = 0
+    for c, jobs, tfk, cleanproj in work:
+        exs = traces.split_executions(tfk)
+        tov += [(c, e) for e in exs]
+        for e in exs:
+            if '"eintr"' in e[0] and '"pure": true' in e[0]:
+                # (scenarios where several buffers read one file are only validated, not compared:
+                #  which buffer gets which bytes legitimately depends on how much each read returns)
+                # EINTR must be transparent: same events as the clean run once the fault line is dropped
+                pr = [l for l in traces.projection(e) if not l.startswith('{"e":"ReadFault"')]
+                cl = [l for l in cleanproj]
+                a_ = [l for l in pr if not l.startswith('{"e":"Counts"')]; b_ = [l for l in cl if not l.startswith('{"e":"Counts"')]
+                if a_ != b_:
+                    k_ = next((i for i in range(min(len(a_), len(b_))) if a_[i] != b_[i]), min(len(a_), len(b_)))
+                    pr = a_[max(0, k_ - 3):k_ + 3]; cl = b_[max(0, k_ - 3):k_ + 3]
+                    run.violation("fault:eintr", "a read interrupted by a signal (EINTR) changed the execution of %s (flex %s): %s"
+                                  % (c.src.get("name"), " ".join(scanner.flex_args(c.cfg)), e[0][:300]),
+                                  dict(cfg=c.cfg, got=pr[-8:], clean=cl[-8:]), [c.gen["l"]])
+                neintr += 1
+    nacc = _validate_list(run, tov, live, casefile, wd, "fault")
+    run.cov["traces_validated_against_impl"] += nacc
+    heaps = [(c, tf + ".heap") for c, job, tf in plans] + [(c, tfk + ".heap") for c, jobs, tfk, _ in work]
+    validate_heap(run, heaps, tag + "-ledger")
+    run.cov["evaluations"] += npoints
+    for c, jobs, tfk, _ in work[:400]:
+        for j in jobs: run._distinct.add(hash((c.id, j.get("failalloc"), j.get("readfault"), bytes(j["input"]))))
+    run.unit(tag, scenarios=len(plans), fault_points=npoints, eintr_points=neintr, executions_accepted=nacc)
+
+
+def _validate_list(run, tovalidate, live, casefile, wd, name, chunk=600):
+    chunks = []
+    for i in range(0, len(tovalidate), chunk):
+        cp = os.path.join(wd, "%s-chunk-%d.ndjson" % (name, i // chunk))
+        with open(cp, "w") as out:
+            for c, e in tovalidate[i:i + chunk]: out.write("".join(e))
+        chunks.append((cp, tovalidate[i:i + chunk]))
+    nacc = 0
+    pending = list(chunks)
+    rounds = 0
+    while pending and rounds < 6:
+        rounds += 1
+        with cf.ThreadPoolExecutor(max(1, min(NCPU // 2, len(pending)))) as ex:
+            vres = list(ex.map(lambda ch: traces.validate(ch[0], casefile), pending))
+        nxt = []
+        for (cp, cj), (ok, r, n) in zip(pending, vres):
+            run.cov["states"] += r.distinct; run.cov["transitions"] += r.generated
+            if ok: nacc += len(cj); continue
+            if r.error or r.timed_out:
+                run.error("Trace_Scanner failed on %s: %s" % (cp, (r.error or "timeout")[:900])); continue
+            lines = open(cp).read().splitlines()
+            stuck = min(r.depth, len(lines))
+            start = max([i for i in range(stuck) if lines[i].startswith('{"e":"Reset"')] or [0])
+            nbefore = sum(1 for x in lines[:start] if x.startswith('{"e":"Reset"'))
+            nacc += nbefore
+            hdr = json.loads(lines[start]) if '"Reset"' in lines[start] else {}
+            c = next((k for k in live if k.id == hdr.get("cid")), None)
+            ev = json.loads(lines[stuck - 1]) if stuck - 1 < len(lines) else {}
+            rp = os.path.join(wd, "rejected-%s-%d" % (os.path.basename(cp), rounds)); open(rp, "w").write("\n".join(lines[start:stuck]) + "\n")
+            run.violation("trace:crash" if ev.get("e") == "Crash" else "trace:rejected",
+                          "execution of %s (flex %s) is not a behaviour of the specification: event #%d %s is not explained"
+                          % (c.src.get("name") if c else "?", " ".join(scanner.flex_args(c.cfg)) if c else "?", stuck - start, json.dumps(ev)[:300]),
+                          dict(cfg=c.cfg if c else None, events=lines[start:stuck][-12:], reset=hdr), ([c.gen["l"]] if c else []) + [rp, casefile])
+            rest = cj[nbefore + 1:]
+            if rest:
+                cp2 = cp + ".r%d" % rounds
+                with open(cp2, "w") as out:
+                    for cc, e in rest: out.write("".join(e))
+                nxt.append((cp2, rest))
+        pending = nxt
+    return nacc
